@@ -85,3 +85,54 @@ def check_default(tier):
             vio.append({"what": f"default_format_given_nnz({l['dims']}, {l['nnz']}) = {f.deparse()!r}, specified {''.join(l['modes'])!r}",
                         "key": {"clause": "default-format"}, "check": "structure", "case": l})
     return vio, r, len(r.lines)
+
+
+def check_subgraphs(tier):
+    """generate_subgraphs: the set of sub-graphs (by alive compressed operands) must be the specified closure, and no
+    sub-graph may be emitted before one it can be derived from (a strict superset of its alive operands)."""
+    from tensora.format import Mode
+    from tensora.iteration_graph import iteration_graph as ig
+    from tensora.iteration_graph._generate_ir import generate_subgraphs
+    from tensora.iteration_graph.identifiable_expression import ast as ie
+
+    r = gen("subgraphs", leaves=3 if tier == "quick" else 4)
+    vio = []
+
+    def build(e, counter):
+        if e["k"] == "leaf":
+            counter[0] += 1
+            n = counter[0]
+            kind = e["kind"]
+            if kind == "compressed":
+                return ie.Tensor(f"c{e['id']}", f"t{n}", ("i",), (Mode.compressed,))
+            if kind == "dense":
+                return ie.Tensor(f"d{n}", f"t{n}", ("i",), (Mode.dense,))
+            if kind == "absent":
+                return ie.Tensor(f"a{n}", f"t{n}", ("j",), (Mode.compressed,))
+            if kind == "zero":
+                return ie.Integer(0)
+            if kind == "zerof":
+                return ie.Float(0.0)
+            return ie.Integer(2)
+        cls = ie.Add if e["k"] == "+" else ie.Multiply
+        return cls(build(e["l"], counter), build(e["r"], counter))
+
+    for l in r.lines:
+        node = ig.IterationNode("i", None, ig.TerminalNode(build(l["expr"], [0])))
+        got = [frozenset(int(x[1:]) for x in g.compressed_dimensions()) for g in generate_subgraphs(node)]
+        want = {frozenset(k) for k in l["keys"]}
+        if set(got) != want or len(got) != len(set(got)):
+            vio.append({"what": f"generate_subgraphs of {l['expr']}: alive sets {sorted(map(sorted, got))}, specified {sorted(map(sorted, want))}",
+                        "key": {"clause": "subgraph-lattice"}, "check": "structure", "case": l})
+            continue
+        for i in range(len(got)):
+            for j in range(i + 1, len(got)):
+                if got[i] < got[j]:
+                    vio.append({"what": f"generate_subgraphs of {l['expr']} emits the sub-graph with alive operands {sorted(got[i])} before "
+                                        f"{sorted(got[j])}, from which it is derived (order {list(map(sorted, got))})",
+                                "key": {"clause": "subgraph-order"}, "check": "structure", "case": l})
+                    break
+            else:
+                continue
+            break
+    return vio, r, len(r.lines)
